@@ -159,6 +159,28 @@ func c01Recv(s *stream.Stream, kind string, n int) ([]byte, error) {
 			return out, err
 		}
 		return append(out, rest...), nil
+	case "getbytes3":
+		// the value is taken in three GetBytes calls whose results are KEPT and only
+		// joined after the whole message has been read: a result must stay what it
+		// was when later frames arrive
+		msg := message.NewMessageFromStream(s)
+		k := (n + 2) / 3
+		var parts [][]byte
+		got := 0
+		for got < n {
+			c := min(k, n-got)
+			b, err := msg.GetBytes(ctx, c)
+			if err != nil {
+				return bytes.Join(parts, nil), err
+			}
+			parts = append(parts, b)
+			got += c
+		}
+		rest, err := msg.GetRemainingBytes(ctx)
+		if err != nil {
+			return bytes.Join(parts, nil), err
+		}
+		return append(bytes.Join(parts, nil), rest...), nil
 	case "remaining":
 		msg := message.NewMessageFromStream(s)
 		return msg.GetRemainingBytes(ctx)
@@ -390,7 +412,7 @@ func C01Plan() *vlib.Plan {
 			N = 8
 		}
 		p.Bounds = map[string]any{"max_len_all_compositions": N, "threshold_delta": 34}
-		recvs := []string{"complete", "readmsg1", "readmsg7", "readmsgall", "getbytes", "remaining", "readframe"}
+		recvs := []string{"complete", "readmsg1", "readmsg7", "readmsgall", "getbytes", "getbytes3", "remaining", "readframe"}
 		for _, enc := range []bool{false, true} {
 			for _, warm := range []bool{false, true} {
 				for _, R := range recvs {
@@ -479,7 +501,7 @@ func C01Plan() *vlib.Plan {
 					for _, warm := range []bool{false, true} {
 						rs := recvs
 						if big && tier != "thorough" {
-							rs = []string{"complete", "readmsgall", "getbytes"}
+							rs = []string{"complete", "readmsgall", "getbytes", "getbytes3"}
 						}
 						for _, R := range rs {
 							for _, S := range []string{"send", "write", "typed"} {
